@@ -34,6 +34,7 @@ RULE = ("unit expressions are generated from structured item lists (prefix, tabl
         "the base units); refused conversions whose multi-atom target fails on a later atom and conversions of another quantity "
         "inside the Quantity histories; refused UnitEnvironment registrations (collision with a prefixed table symbol) followed "
         "by conversions of that prefixed unit; the unit tables re-extracted at the end of the run and compared with the start; "
+        "every prefix of the prefix table at least once per run on either side; "
         "reciprocal pairs also with arrays holding exact zeros; the empty unit as target in every form; np.sin/cos/tan on "
         "rad, mrad, deg, arcmin, arcsec, bare numbers, powers of rad and other dimensions, np.arcsin/arccos/arctan on plain "
         "numbers, %, PR, ppth, rad, m; augmented assignments (*=, /=, +=, -=) inside the Quantity histories; units written "
@@ -281,6 +282,16 @@ def gen_cases(ctx, cat, scale):
                                        [(pick_prefix(cat, rng, v), v, (1, 1))]))
                 cases.append(make_case(cat, rng, "prefix", pick_value(rng), [(pick_prefix(cat, rng, v), v, (1, 1))],
                                        [(p, u, (1, 1))]))
+    # -- every prefix of the prefix table at least once per run (both sides), on a unit that admits it
+    for p in cat.prefix_mag:
+        admit = [t for t in cat.linear if p in cat.units[t][2]]
+        if not admit:
+            continue
+        for _ in range(2):
+            t = rng.choice(admit)
+            w = rng.choice(groups[cat.dimkey(t)])
+            cases.append(make_case(cat, rng, "every-prefix", pick_value(rng), [(p, t, (1, 1))], [(pick_prefix(cat, rng, w), w, (1, 1))]))
+            cases.append(make_case(cat, rng, "every-prefix", pick_value(rng), [(pick_prefix(cat, rng, w), w, (1, 1))], [(p, t, (1, 1))]))
     # -- compound expressions
     for _ in range((3000 if thorough else 350) * scale):
         iu = random_items(cat, rng)
@@ -473,7 +484,10 @@ def run_impl(case, cat=None):
 
 def target_expression(ev):
     from scinumtools.units.base_units import BaseUnits
-    return BaseUnits(ev).expression
+    try:
+        return BaseUnits(ev).expression
+    except Exception as e:      # the expression cannot be constructed at all: reported by the conversion oracles
+        return "<not constructible: %s>" % (e.args[:1],)
 
 
 def judge(ctx, cat, case, imp, res, report=True):
@@ -655,8 +669,13 @@ def run_cases(ctx, cat, cases):
                 # (prefix*factor)**exponent overflowed while the units were built: a float-range effect
                 ctx.count("unjudged.float-exception-in-construction")
             else:
-                ctx.disagreement(c["stream"], {"x": c["x"], "u": c["eu"], "v": c["ev"], "form": c.get("form")},
-                                 "Quantity()/target construction failed: %s" % imp["init"])
+                # every token was checked (from the tables alone) to denote the intended unit: a unit expression of
+                # admissible prefixes and table symbols that cannot even be constructed cannot be converted
+                ctx.violation("unit-expression-refused",
+                              "%s -> %s (%s): constructing the quantity / target raises %s although every token is an admissible "
+                              "prefix + table symbol" % (c.get("src") or c["eu"], c["ev"], c.get("form"), imp["init"]),
+                              {"stream": c["stream"], "x": c["x"], "u": c["eu"], "v": c["ev"], "iu": c["iu"], "iv": c["iv"],
+                               "form": c.get("form"), "tm": c.get("tm")})
             continue
         ctx.count("form." + c.get("form", "str"))
         ctx.count("container." + c.get("container", "python"))
